@@ -134,7 +134,7 @@ def _bare(tmpl, enc_lo, enc_hi_from_end, accept_rule):
         if ws is None:
             if hits:
                 return hx.fail("find_base64: text violating an acceptance rule was decoded", data=data, hits=hits), True
-            return True, False
+            return True, True
         if len(hits) != 1 or not (hits[0].start == ws and hits[0].end == we):
             return hx.fail("find_base64: acceptable text not decoded as one unit covering exactly the encoded text",
                            data=data, hits=hits, want=(ws, we)), True
@@ -158,6 +158,8 @@ def rule_len(data):
 
 
 _add("bare_b64_quantum_and_padding", Tmpl((1, "nonb64"), B24[:20], (4, "b64pad"), (1, "nonb64")),
+     _bare(None, 0, 0, rule_len), funcs=["multidecoder.decoders.base64.find_base64"], tier="thorough", timeout=2400)
+_add("bare_b64_last_pair_and_padding", Tmpl(b" ", B24[:20], b"QU", (2, "b64pad"), b" "),
      _bare(None, 0, 0, rule_len), funcs=["multidecoder.decoders.base64.find_base64"])
 
 
@@ -203,6 +205,8 @@ def rule_newline(data):
 
 
 _add("bare_b64_linebreaks", Tmpl((1, "nonb64"), B24[:12], b"\r\n", B24[12:20], b"&#13;&#10;", (4, "b64"), (1, "nonb64")),
+     _bare(None, 0, 0, rule_newline), funcs=["multidecoder.decoders.base64.find_base64"], tier="thorough", timeout=2400)
+_add("bare_b64_linebreaks_2free", Tmpl(b" ", B24[:12], b"\r\n", B24[12:20], b"&#13;&#10;", b"QU", (2, "b64"), b" "),
      _bare(None, 0, 0, rule_newline), funcs=["multidecoder.decoders.base64.find_base64"])
 
 # ---- hexadecimal -----------------------------------------------------------------------------------------
